@@ -592,22 +592,22 @@ func writeEvidence(prop, tier string, seed uint64, a *aggregate, wall float64, v
 	}
 	sort.Strings(others)
 	cov := map[string]interface{}{
-		"evaluations":         a.worlds,
-		"distinct_nontrivial": len(a.nontrivial),
-		"rule":                ruleFor(prop),
-		"samples":             samples,
-		"runs_per_hour":       int(perHour),
-		"blocks_committed":    a.blocks,
-		"transactions":        a.txs,
-		"transactions_ok":     a.txok,
-		"simulated_time_s":    float64(a.simMs) / 1000,
-		"replicas_total":      a.replicas,
+		"evaluations":          a.worlds,
+		"distinct_nontrivial":  len(a.nontrivial),
+		"rule":                 ruleFor(prop),
+		"samples":              samples,
+		"runs_per_hour":        int(perHour),
+		"blocks_committed":     a.blocks,
+		"transactions":         a.txs,
+		"transactions_ok":      a.txok,
+		"simulated_time_s":     float64(a.simMs) / 1000,
+		"replicas_total":       a.replicas,
 		"crash_forks_reopened": a.forks,
-		"faults_fired":        faults,
-		"probes":              probes,
-		"worlds_timed_out":    a.timedOut,
-		"other_property_hits": others,
-		"known_findings_seen": knownLines,
+		"faults_fired":         faults,
+		"probes":               probes,
+		"worlds_timed_out":     a.timedOut,
+		"other_property_hits":  others,
+		"known_findings_seen":  knownLines,
 		"components": map[string]string{
 			"real": "node.RigoApp + all controllers, ledger, IAVL, goleveldb on tmpfs, go-ethereum EVM, rigo local ABCI client/AppConns, Tendermint state.BlockExecutor.ApplyBlock, state.Store, store.BlockStore (MemDB), consensus.Handshaker, ValidatorSet/VoteSet/commit verification, evidence->ABCI conversion",
 			"stub": "consensus rounds/WAL/p2p/mempool reactor (seeded block producer and simulated mempool/query clients), evidence pool (EmptyEvidencePool), rpc/core environment (block store view only)",
